@@ -45,6 +45,10 @@ STATES_MODEL = ("absent", "file", "emptyfile", "dir", "dir_nonempty")
 STATES_LINKS = ("symlink_file", "symlink_dangling", "symlink_dir")
 STYLES = ("abs", "rel", "relsub", "dot", "dotdot", "pathlib")
 EXIT_FAULTS = ("close", "replace")
+try:
+    NAME_MAX = os.pathconf("/tmp", "PC_NAME_MAX")
+except (OSError, ValueError):
+    NAME_MAX = 255
 
 
 def hx(s):
@@ -90,8 +94,9 @@ def exc_class(e, natural=False):
 class Injector:
     """faults: list of ["format", k] | ["write", j] | ["child"] | ["open"] | ["close"] | ["replace"] | ["remove"] | ["post"]"""
 
-    def __init__(self, faults, fmt_exc="IllegalState"):
+    def __init__(self, faults, fmt_exc="IllegalState", dest=None):
         self.faults = {tuple(f) for f in faults}
+        self.dest = dest            # the destination as given to write_to_file
         self.nf = 0
         self.nw = 0
         self.opened = []
@@ -107,7 +112,10 @@ class Injector:
     def fake_open(self, path, mode="r", *a, **k):
         if any(c in mode for c in "wax+"):
             self.opened.append(os.fspath(path))
-            if self.has("open") and not os.path.isdir(path):     # a directory there fails by itself (EISDIR)
+            # "open": no NEW file can be made next to the destination (read-only directory, quota, name too long);
+            # the destination itself can still be opened.  A directory there fails by itself (EISDIR).
+            is_dest = self.dest is not None and os.path.abspath(os.fspath(path)) == os.path.abspath(os.fspath(self.dest))
+            if self.has("open") and not os.path.isdir(path) and not is_dest:
                 raise PermissionError(errno.EACCES, "injected: open for writing", os.fspath(path))
             return FileProxy(builtins.open(path, mode, *a, **k), self)
         return builtins.open(path, mode, *a, **k)
@@ -537,7 +545,9 @@ def run_real(case, temp_parts=None):
         d, arg, cwd = setup_state(root, case, temp_parts)
         pre = snapshot(d)
         pre_else = snapshot(os.path.join(root, "elsewhere"))
-        inj = Injector(case.get("faults", []), case.get("fmt_exc", "IllegalState"))
+        if case.get("readonly_dir"):
+            os.chmod(d, 0o555)
+        inj = Injector(case.get("faults", []), case.get("fmt_exc", "IllegalState"), dest=arg)
         exc = None
         if cwd:
             os.chdir(cwd)
@@ -550,6 +560,8 @@ def run_real(case, temp_parts=None):
                     exc = e
         finally:
             os.chdir(old_cwd)
+            if case.get("readonly_dir"):
+                os.chmod(d, 0o755)
         post = snapshot(d)
         post_else = snapshot(os.path.join(root, "elsewhere"))
         cwd_left = sorted(os.listdir(root))
@@ -671,8 +683,14 @@ def model_request(case, obs, wire, temp_parts, ref):
             ents.append(hx(n) + ":D")
         else:
             return None
+    adv = wire_adv(case.get("faults", []), case.get("fmt_exc"))
+    # a temporary whose name does not fit the file system, or a directory in which nothing can be created, is the
+    # crash point "open" of the model
+    if (temp_parts and len(temp_name(temp_parts, base, obs["pid"])) > NAME_MAX) or case.get("readonly_dir"):
+        if "o" not in adv.split(","):
+            adv = "o" if adv == "-" else adv + ",o"
     return " ".join(["run", wire, "1" if case["ov"] else "0", hx(str(obs["pid"])), hx(base),
-                     ",".join(ents) or "-", wire_problem(ref), wire_adv(case.get("faults", []), case.get("fmt_exc"))])
+                     ",".join(ents) or "-", wire_problem(ref), adv])
 
 
 def node_wire(node):
@@ -753,6 +771,13 @@ def fault_sweep(ref, rng, tier):
     out.append([["close"], ["post"]])
     out.append([["replace"], ["remove"]])
     out.append([["format", nf]])                    # one past the last format call: never reached
+    # the temporary cannot be created AND the write sequence fails part-way, at every position
+    for k in range(nf):
+        out.append([["open"], ["format", k]])
+    for j in sorted(set(rng.randrange(nw) for _ in range(3))) if nw else []:
+        out.append([["open"], ["write", j]])
+    out.append([["open"], ["close"]])
+    out.append([["open"], ["child"]])
     n_extra = 3 if tier == "quick" else 12
     kinds = [["child"], ["open"], ["close"], ["replace"], ["remove"], ["post"]]
     for _ in range(n_extra):
@@ -813,6 +838,20 @@ def cases_for_problem(i, seed, tier):
                 cases.append({"text": text, "incomplete": inc, "state": st, "ov": ov, "base": base,
                               "style": rng.choice(styles), "faults": faults,
                               "fmt_exc": rng.choice(list(WARNING_CLASSES))})
+    # destination names within 3 characters of NAME_MAX: the temporary's longer name does not fit (ENAMETOOLONG,
+    # a real OSError, nothing injected) while the destination's does — with a failure at every format position;
+    # for a non-root user also a directory in which no new file can be created
+    fsweep = [[]] + [[["format", k]] for k in range(ref["nf"])] + ([[["write", rng.randrange(ref["nw"])]]] if ref["nw"] else [])
+    for st, ov in (("absent", False), ("file", True)):
+        L = rng.randint(NAME_MAX - 3, NAME_MAX)
+        long_base = "L" * (L - 2) + ".i"
+        for faults in fsweep:
+            cases.append({"text": text, "incomplete": inc, "state": st, "ov": ov, "base": long_base,
+                          "style": rng.choice(styles), "faults": faults, "fmt_exc": rng.choice(["IllegalState", "ValueError"])})
+        if os.geteuid() != 0:
+            for faults in fsweep:
+                cases.append({"text": text, "incomplete": inc, "state": st, "ov": ov, "base": base, "readonly_dir": True,
+                              "style": rng.choice(styles), "faults": faults, "fmt_exc": "IllegalState"})
     # guard states: the adversary is irrelevant there, a few faults each
     for st, ov in (("dir", True), ("dir", False), ("dir_nonempty", True), ("file", False), ("emptyfile", False)):
         for faults in [[]] + rng.sample(sweep, min(3, len(sweep))):
@@ -890,7 +929,8 @@ def shrink(case, kind, temp_parts):
         cand = dict(cur, faults=cur["faults"][:i] + cur["faults"][i + 1:])
         if failing(cand):
             cur = cand
-    for k, v in (("incomplete", None), ("stale", None), ("style", "abs"), ("base", "out.i"), ("fmt_exc", "IllegalState")):
+    for k, v in (("incomplete", None), ("stale", None), ("style", "abs"), ("base", "out.i"), ("fmt_exc", "IllegalState"),
+                 ("readonly_dir", None)):
         if cur.get(k) != v:
             cand = dict(cur, **{k: v})
             if failing(cand):
@@ -1024,6 +1064,10 @@ def run(ctx):
             ctx.count_case((o["i"], c["state"], c["ov"], c["style"], str(c["faults"]), c.get("stale")),
                            nontrivial=bool(c["faults"]) or c["state"] != "absent")
             dist["state"][c["state"]] = dist["state"].get(c["state"], 0) + 1
+            if len(c.get("base", "")) >= NAME_MAX - 3:
+                dist["name_within_3_of_NAME_MAX"] = dist.get("name_within_3_of_NAME_MAX", 0) + 1
+            if c.get("readonly_dir"):
+                dist["readonly_dir"] = dist.get("readonly_dir", 0) + 1
             dist["style"][c["style"]] = dist["style"].get(c["style"], 0) + 1
             dist["overwrite"][str(c["ov"])] += 1
             for k in kinds:
